@@ -58,7 +58,8 @@ def parseCCert : String → Option (Option CertProps)
 /-- (speaks TLS when offered TLS, answers plaintext when offered plaintext) -/
 def parsePeer : String → Option (PeerKind × Bool)
   | "tls" => some (.tls, false) | "plain" => some (.plaintext, true) | "garbage" => some (.garbage, false)
-  | "badhello" => some (.garbage, false) | "dual" => some (.tls, true) | "plainread" => some (.plaintext, false) | _ => none
+  | "badhello" => some (.garbage, false) | "dual" => some (.tls, true) | "plainread" => some (.plaintext, false)
+  | "anon" => some (.anon, false) | _ => none
 def parseOwn : String → Option (Bool × Files)
   | "valid" => some (true, CertKind.valid.files) | "self" => some (true, CertKind.selfSigned.files)
   | "expired" => some (true, CertKind.expired.files) | "wrongname" => some (true, CertKind.wrongName.files)
@@ -79,7 +80,13 @@ def certTable : String :=
      [("cvalid", CCertKind.valid.props), ("cuntrusted", CCertKind.untrusted.props), ("cexpired", CCertKind.expired.props)].filterMap
        (fun (n, c) => c.map (certRow n)))
 
-def cliCell (verify trust scert ceil peer target min enabled defmode req : String) : Option String := do
+/-- `ciphers=` option of a cell → what the string does to authentication -/
+def cipherClass : Option String → CipherClass
+  | some "seclevel0" => .enablesAnon        -- "ALL:@SECLEVEL=0": OpenSSL's ALL includes aNULL
+  | some "noanon0" => .restricts            -- "ALL:!aNULL:@SECLEVEL=0"
+  | _ => .default
+
+def cliCell (verify trust scert ceil peer target min enabled defmode req : String) (ciphers : CipherClass) : Option String := do
   let cert ← parseSCert scert
   let ce ← parseCeil ceil
   let (kind, plainOk) ← parsePeer peer
@@ -90,7 +97,8 @@ def cliCell (verify trust scert ceil peer target min enabled defmode req : Strin
   let tgt ← (match target with | "name" => some (Target.name theHost) | "ip" => some .ipv4 | "ip6" => some .ipv6 | _ => none)
   let v ← parseBit verify
   let en ← parseBit enabled
-  let tc : TCfg := { client := { enabled := en, defaultMode := dm, verifyPeer := v, caFileSet := caSet trust, caPathSet := trust == "path", minVersion := mn } }
+  let tc : TCfg := { client := { enabled := en, defaultMode := dm, verifyPeer := v, caFileSet := caSet trust, caPathSet := trust == "path", minVersion := mn,
+                                 ciphers := ciphers } }
   let tf : TFiles := { client := { caLoads := caLoads trust } }
   let p := connectPlan tc tf rq tgt
   match p with
@@ -100,7 +108,7 @@ def cliCell (verify trust scert ceil peer target min enabled defmode req : Strin
   | .plain => pure (line p true plainOk true none)
   | .refuse _ => pure (line p false false false none)
 
-def srvCell (verify trust own ccert ceil peer min enabled defmode req : String) (greet : Bool) : Option String := do
+def srvCell (verify trust own ccert ceil peer min enabled defmode req : String) (greet : Bool) (ciphers : CipherClass) : Option String := do
   let (haveCert, files) ← parseOwn own
   let cc ← parseCCert ccert
   let ce ← parseCeil ceil
@@ -112,7 +120,7 @@ def srvCell (verify trust own ccert ceil peer min enabled defmode req : String) 
   let v ← parseBit verify
   let en ← parseBit enabled
   let tc : TCfg := { server := { enabled := en, defaultMode := dm, certFileSet := haveCert, keyFileSet := haveCert, verifyPeer := v,
-                                 caFileSet := caSet trust, caPathSet := trust == "path", minVersion := mn } }
+                                 caFileSet := caSet trust, caPathSet := trust == "path", minVersion := mn, ciphers := ciphers } }
   let tf : TFiles := { server := { files with caLoads := caLoads trust } }
   let p := listenPlan tc tf rq
   match p with
@@ -185,20 +193,40 @@ def reuseCell (first second : String) : Option String := do
     | _ => "-"
   pure s!"r1=200 r2=200 conns={conns} second_on={secondOn} secure_in_clear={bit leak}"
 
+/-- `hreconf <v1> <trigger> <v2>`: setTlsConfig{v1}; trigger; setTlsConfig{v2}; https request to a SELF-SIGNED server -/
+def reconfCell (v1 trigger v2 : String) : Option String := do
+  let a ← parseBit v1
+  let b ← parseBit v2
+  let c1 : HttpTls := { verifyPeer := a, caFileSet := a }
+  let c2 : HttpTls := { verifyPeer := b, caFileSet := b }
+  let touch1 ← (match trigger with | "get" => some true | "dns" => some true | "none" => some false | _ => none)
+  let s1 := hRun {} ([.setTls c1] ++ (if touch1 then [.touch] else []))
+  let threw := (hStep s1 (.setTls c2)).2
+  let s2 := hRun (hStep s1 (.setTls c2)).1 [.touch]
+  let req := fun (cfg : HttpTls) =>
+    let p := httpClientPlan cfg {} true .ipv4 true
+    let o := clientOutcome Ossl.ref p (if cfg.caFileSet then .right else .empty) .empty { kind := .tls, cert := CertKind.selfSigned.props, ceil := 772 }
+    (if o.isSome then "200" else "err", match p with | .tls c _ _ => showVerify c.verify | _ => "-")
+  let r1 := if trigger == "get" then (req (s1.applied.getD s1.stored)).1 else "-"
+  let r2 := req (s2.applied.getD s2.stored)
+  pure s!"set2={if threw then "throw" else "ok"} r1={r1} r2={r2.1} verify2={r2.2}"
+
 def optOf (toks : List String) (k : String) : Option String :=
   (toks.find? (fun t => t.startsWith (k ++ "="))).map (fun t => (t.drop (k.length + 1)).toString)
 
 def step (_ : Unit) (toks : List String) : Unit × String :=
   let opts := toks.filter (fun t => t.contains '=')
   let greet := optOf opts "greet" == some "1"
+  let ciphers := cipherClass (optOf opts "ciphers")
   match toks.filter (fun t => !t.contains '=') with
   | ["certtable"] => ((), certTable)
   | ["cli", _api, verify, trust, scert, ceil, peer, target, min, _et, _batch, enabled, defmode, req] =>
-    ((), (cliCell verify trust scert ceil peer target min enabled defmode req).getD "bad-op")
+    ((), (cliCell verify trust scert ceil peer target min enabled defmode req ciphers).getD "bad-op")
   | ["srv", verify, trust, own, ccert, ceil, peer, min, _et, _batch, enabled, defmode, req] =>
-    ((), (srvCell verify trust own ccert ceil peer min enabled defmode req greet).getD "bad-op")
+    ((), (srvCell verify trust own ccert ceil peer min enabled defmode req greet ciphers).getD "bad-op")
   | ["hurl", scheme, form, verify, peer] => ((), (urlCell scheme form verify peer).getD "unmodelled")
   | ["hreuse", first, second, _verify] => ((), (reuseCell first second).getD "bad-op")
+  | ["hreconf", v1, trigger, v2] => ((), (reconfCell v1 trigger v2).getD "bad-op")
   | ["http", verify, ca, sys, scert, url, ceil, peer] => ((), (httpCell verify ca sys scert url ceil peer).getD "bad-op")
   | ["hsrv", require, ca, own, ccert, ceil, peer] => ((), (hsrvCell require ca own ccert ceil peer).getD "bad-op")
   | ["fires"] => ((), "fires")
